@@ -279,7 +279,14 @@ z3.RecAddDefinition(gather_outcomes, [_gl], z3.If(VL.is_nil(_gl), VL.nil, VL.con
 def _gather_lemmas(e, n):
     """gather_outcomes is a positional map (induction on the list)"""
     if n == 'gather_outcomes':
-        return [length(e) == length(e.arg(0))]
+        out = [length(e) == length(e.arg(0))]
+        l0 = e.arg(0)
+        if z3.is_app(l0) and l0.decl().name() == 'take':
+            # outcomes of a prefix one longer: the shorter prefix's outcomes, then the next one (induction on the list; proved in contracts/c08b.py)
+            l, k = l0.arg(0), l0.arg(1)
+            out.append(z3.Implies(z3.And(k > 0, k <= length(l)), e == app(gather_outcomes(take(l, k - 1)), VL.cons(_outcome(nth(l, k - 1)), VL.nil))))
+            out.append(z3.Implies(k <= 0, e == VL.nil))
+        return out
     if n == 'nth' and z3.is_app(e.arg(0)) and e.arg(0).decl().name() == 'gather_outcomes':
         l, k = e.arg(0).arg(0), e.arg(1)
         return [z3.Implies(z3.And(k >= 0, k < length(l)), e == _outcome(nth(l, k)))]
